@@ -129,6 +129,29 @@ def gen(ctx: Ctx, n):
             scripts[-1] += op('TRUE')
             cfg = vmrun.Cfg()
             cfg.call_limit = max(0, sum(ks) + rng.choice([-2, -1, 0, 0, 1]))
+        if rng.random() < .02:
+            # an unassigned opcode with a negative count (operand byte 80..ff) raises - also when the witness left that many items
+            x = rng.choice([0x80, 0x81, 0xc8, 0xff, rng.randrange(0x80, 0x100)])
+            k = rng.choice([x, x, x, x + 1, x - 1, 127, 300])
+            scripts = [op('FALSE') * k, bytes([rng.randrange(92, 256), x]) + op('TRUE')]
+            if rng.random() < .3: scripts = [op('FALSE') * (k // 2), op('FALSE') * (k - k // 2)] + scripts[1:]
+            cfg = vmrun.Cfg()
+        if rng.random() < .03:
+            # definitions made inside an evaluated script end with it: a witness-supplied blob the lock evaluates cannot replace the
+            # lock's own function, and a function defined inside an evaluation is unknown to the evaluating script and to later scripts
+            def deff_(h, b): return op('DEF') + bytes([h]) + len(b).to_bytes(2, 'big') + b
+            pre_ = b'secret%d' % rng.randrange(3); dg_ = hashlib.sha256(pre_).digest()
+            chk = op('SHA256') + G.push(dg_) + op('EQUAL_VERIFY')
+            h = rng.choice([0, 1, 200])
+            blob = rng.choice([deff_(h, op('POP0')), deff_(h, op('POP0')), op('TRUE') + op('POP0'), deff_((h + 1) % 256, op('POP0')),
+                               op('TRUE') + op('IF') + (len(deff_(h, op('POP0')))).to_bytes(2, 'big') + deff_(h, op('POP0'))])
+            kind = rng.randrange(4)
+            given = rng.choice([pre_, pre_, b'wrong', b''])
+            if kind == 0: scripts = [G.push(given) + G.push(blob), deff_(h, chk) + op('EVAL') + op('CALL') + bytes([h]) + op('TRUE')]
+            elif kind == 1: scripts = [G.push(given), G.push(blob) + op('EVAL'), deff_(h, chk) + op('CALL') + bytes([h]) + op('TRUE')][(0 if rng.random() < .5 else 0):]
+            elif kind == 2: scripts = [G.push(deff_(h, op('TRUE'))) + op('EVAL'), op('CALL') + bytes([h])]
+            else: scripts = [deff_(h, chk) + G.push(given) + G.push(blob) + op('EVAL') + op('CALL') + bytes([h]) + op('TRUE')]
+            cfg = vmrun.Cfg()
         cases.append((cfg, cache, scripts))
     return cases
 
